@@ -104,9 +104,9 @@ def _noise(rng, kind, hist, content, nproj):
     return hist
 
 
-# FrozenApprovalBallot(approval_ballot) (not .frozen()) freezes in SET-ITERATION order on HEAD: hash-seed dependent and
-# unequal to ballot.frozen() (reported); generated only once that is settled
-FROZEN_APP_FROM_SET_OK = False
+# FrozenApprovalBallot(approval_ballot) (not .frozen()) froze in SET-ITERATION order (hash-seed dependent, unequal to
+# ballot.frozen()) before repair 48c2140 (found by this check); now it is the name-sorted tuple = ballot.frozen()
+FROZEN_APP_FROM_SET_OK = True
 
 
 def gen_direct(rng, i, tier):
@@ -435,7 +435,8 @@ def _as_tuples(case, o):
     o = _copy.deepcopy(o)
     case["kind"] = "ord"
     for j, b in enumerate(case["ballots"]):
-        if not b.get("direct"):
+        if b.get("direct") != "seq" and b.get("direct") != "frozen":
+            # a mutable ballot, or a frozen ballot built by the constructor FROM the mutable ballot (a set): name-sorted
             d = {}
             for h in b["hist"]:
                 if h[0] == "+":
@@ -443,8 +444,9 @@ def _as_tuples(case, o):
                 else:
                     d.pop(h[1], None)
             b["hist"] = [["+", p_, "0/1"] for p_ in sorted(d)]
-            for s in o["per_seed"]:
-                s["iter"][j] = sorted(s["iter"][j])
+            if not b.get("direct"):
+                for s in o["per_seed"]:
+                    s["iter"][j] = sorted(s["iter"][j])
     return case, o
 
 
@@ -468,8 +470,10 @@ def coq_case(case, o):
 # evidence
 # ------------------------------------------------------------------------------------------------
 def _content_of(case, b):
-    if b.get("direct") and case["kind"] == "app":
+    if b.get("direct") in ("seq", "frozen") and case["kind"] == "app":
         return ("t", tuple(h[1] for h in b["hist"]))
+    if b.get("direct") == "mutable" and case["kind"] == "app":
+        return ("t", tuple(sorted(h[1] for h in b["hist"])))
     return _content(case["kind"], b["hist"])
 
 
